@@ -48,6 +48,10 @@ theorem decInto_fresh (f : Fmt) : ∀ bs, decInto f .unit bs = dec f bs := by
     intro bs
     simp only [decInto, decG]
     cases m <;> (repeat' split) <;> simp_all [hexVal, flagOf]
+  | shex2 =>
+    intro bs
+    simp only [decInto, decG]
+    (repeat' split) <;> simp_all
   | framed pre f post ih =>
     intro bs
     simp only [decInto, decG, ih]
@@ -87,6 +91,10 @@ theorem decInto_clean (f : Fmt) : Clean f → ∀ r bs, decInto f r bs = dec f b
     simp only [decInto, decG]
     cases m <;> simp only [Clean, ne_eq, not_true_eq_false, reduceCtorEq, not_false_eq_true] at hc <;>
       (repeat' split) <;> simp_all [hexVal]
+  | shex2 =>
+    intro _ r bs
+    simp only [decInto, decG]
+    (repeat' split) <;> simp_all
   | framed pre f post ih =>
     intro hc r bs
     simp only [Clean] at hc
